@@ -170,6 +170,10 @@ type authWorld struct {
 
 type callIDKey struct{}
 
+// desiredEverything stands for ociauth.UnlimitedScope() as a caller's desired scope:
+// it cannot be asked for in scope syntax and so adds nothing to a token request.
+const desiredEverything = "(everything)"
+
 func (w *authWorld) now() time.Time { return time.Now() }
 
 func newAuthWorld(env *core.Env, hosts []*regHost) *authWorld {
@@ -602,7 +606,9 @@ func (w *authWorld) call(id int, host, required, desired string, withBody, withG
 	}
 	w.callHost[id] = host
 	ctx = ociauth.ContextWithRequestInfo(ctx, ociauth.RequestInfo{RequiredScope: ociauth.ParseScope(required)})
-	if desired != "" {
+	if desired == desiredEverything {
+		ctx = ociauth.ContextWithScope(ctx, ociauth.UnlimitedScope())
+	} else if desired != "" {
 		ctx = ociauth.ContextWithScope(ctx, ociauth.ParseScope(desired))
 	}
 	method := "GET"
